@@ -684,7 +684,7 @@ impl Prop for C19 {
                     let ts = TimeoutSettings::new(Some(Duration::from_secs(2)), Some(Duration::from_secs(2)), Some(Duration::from_secs(2)), 0).ok();
                     let lib = gamedig::query_with_timeout_and_extra_settings(game, &ip, Some(port), ts, None);
                     let (lib_generic, lib_specific) = match &lib {
-                        Ok(r) => (Some(to_json(&r.as_json())), Some(to_json(&r.as_original()))),
+                        Ok(r) => (Some(generic_from_accessors(r.as_ref())), Some(to_json(&r.as_original()))),
                         Err(_) => (None, None),
                     };
                     let slot_desc = if a.is_empty() { "all plain".to_string() } else { a.iter().map(|(s, c, _)| format!("{s}={c}")).collect::<Vec<_>>().join(" + ") };
@@ -764,7 +764,7 @@ impl Prop for C19 {
                     let ts = TimeoutSettings::new(Some(Duration::from_secs(2)), Some(Duration::from_secs(2)), Some(Duration::from_secs(2)), 0).ok();
                     let lib = gamedig::query_with_timeout_and_extra_settings(game, &ip, Some(port_for(())), ts, None);
                     let (lib_generic, lib_specific) = match &lib {
-                        Ok(r) => (Some(to_json(&r.as_json())), Some(to_json(&r.as_original()))),
+                        Ok(r) => (Some(generic_from_accessors(r.as_ref())), Some(to_json(&r.as_original()))),
                         Err(_) => (None, None),
                     };
                     if lib.is_err() {
@@ -775,7 +775,11 @@ impl Prop for C19 {
                     for (mode, format) in combos {
                         n += 1;
                         crate::crumb::mark(ctx.case, &[n as u32]);
-                        let mk = |port: u16| -> Vec<String> { ["query", "-g", id, "-i", "127.0.0.1", "-p", &port.to_string(), "-f", format, "-o", mode, "--read-timeout", "1", "--connect-timeout", "1"].iter().map(|s| s.to_string()).collect() };
+                        // every third id is addressed by name (the CLI resolves it and passes it on as host name) - if this
+                        // machine resolves "localhost" to the IPv4 loopback first, where the reference servers listen
+                        let by_name = gidx % 3 == 0 && localhost_is_ipv4_loopback();
+                        let host = if by_name { "localhost" } else { "127.0.0.1" };
+                        let mk = |port: u16| -> Vec<String> { ["query", "-g", id, "-i", host, "-p", &port.to_string(), "-f", format, "-o", mode, "--read-timeout", "1", "--connect-timeout", "1"].iter().map(|s| s.to_string()).collect() };
                         let mut r = run_cli(&mk(port_for(())));
                         for _ in 0 .. 2 {
                             if r.code != Some(0) && (r.stderr.contains("PacketReceive") || r.stderr.contains("PacketSend")) {
@@ -864,4 +868,29 @@ impl Prop for C19 {
             }
         }
     }
+}
+
+
+fn localhost_is_ipv4_loopback() -> bool {
+    use std::net::ToSocketAddrs;
+    static R: OnceLock<bool> = OnceLock::new();
+    *R.get_or_init(|| ("localhost", 0u16).to_socket_addrs().ok().and_then(|mut a| a.next()).is_some_and(|a| a.ip() == IpAddr::V4(Ipv4Addr::LOCALHOST)))
+}
+
+
+/// The protocol-independent document as the accessors define it (not through `as_json()`, whose agreement with the accessors
+/// is C15's subject): the nine values and, where the response lists players, their names and scores.
+fn generic_from_accessors(r: &dyn gamedig::protocols::types::CommonResponse) -> Value {
+    canon(serde_json::json!({
+        "name": r.name(),
+        "description": r.description(),
+        "game_mode": r.game_mode(),
+        "game_version": r.game_version(),
+        "map": r.map(),
+        "players_maximum": r.players_maximum(),
+        "players_online": r.players_online(),
+        "players_bots": r.players_bots(),
+        "has_password": r.has_password(),
+        "players": r.players().map(|ps| ps.iter().map(|p| serde_json::json!({"name": p.name(), "score": p.score()})).collect::<Vec<_>>()),
+    }))
 }
